@@ -13,11 +13,20 @@ Proof. vm_compute. reflexivity. Qed.
 Lemma lib_proved_closed : closed_ok variant_repaired lib lib_proved_ids = true.
 Proof. vm_compute. reflexivity. Qed.
 
+(* ... and with the wrapping __init__ forms (MarkingDefinition) admitted: the set of the constructor-level round trip *)
+Definition lib_proved_idsw : list ustring := Eval vm_compute in proved_idsw variant_repaired lib.
+
+Lemma lib_proved_closedw : closed_okw variant_repaired lib lib_proved_idsw = true.
+Proof. vm_compute. reflexivity. Qed.
+
+Lemma lib_proved_sub : forallb (fun k => mem_ustr k lib_proved_idsw) lib_proved_ids = true.
+Proof. vm_compute. reflexivity. Qed.
+
 Definition lib_unproved_ids : list ustring :=
-  Eval vm_compute in filter (fun x => negb (mem_ustr x lib_proved_ids)) (map cid (wclasses lib)).
+  Eval vm_compute in filter (fun x => negb (mem_ustr x lib_proved_idsw)) (map cid (wclasses lib)).
 
 (* how many of the classes are covered; the check prints both lists into the evidence *)
-Definition lib_coverage : nat * nat := Eval vm_compute in (List.length lib_proved_ids, List.length (wclasses lib)).
+Definition lib_coverage : nat * nat := Eval vm_compute in (List.length lib_proved_idsw, List.length (wclasses lib)).
 
 (* parse entry points: the proved classes whose tables also pass parse_class_ok *)
 Definition lib_parse_ids : list ustring :=
